@@ -110,6 +110,9 @@ pub struct Driver {
     pub multi_frame_pct: u64,
     /// an `Any`-role object may open its next connection from the other side (server after client, client after server)
     pub path_flip: bool,
+    /// per-mille chance per step that the application breaks its contract (releases an id an exchange still owns, or
+    /// reuses such an id in another packet); afterwards only the unconditional rules are judged (Sink::misused)
+    pub misuse_pm: u64,
 }
 
 const TOPICS: [&str; 3] = ["a", "b", "c/d"];
@@ -141,6 +144,7 @@ impl Driver {
             op_trace: Vec::new(),
             multi_frame_pct: 0,
             path_flip: true,
+            misuse_pm: 0,
         }
     }
     fn bump(&mut self, k: &str) {
@@ -971,6 +975,28 @@ impl Driver {
         if self.close_pending && (self.r.below(100) < 80 || self.model.status == St::D) {
             self.closed();
             return;
+        }
+        // the application breaks its contract
+        if self.misuse_pm > 0 && self.r.below(1000) < self.misuse_pm {
+            let busy: Vec<u32> = self.model.owner.iter().filter(|(_, o)| **o != Owner::App).map(|(i, _)| *i).collect();
+            if !busy.is_empty() {
+                let id = *self.r.pick(&busy);
+                self.sink.misused = true;
+                *self.counters.entry("application_misuse_ops".into()).or_insert(0) += 1;
+                match self.r.below(3) {
+                    0 => self.release(id),
+                    1 => {
+                        // a packet of another exchange on the busy id (refused sends release "their" id)
+                        let p = if self.sc.as_client { Pkt::Subscribe { ver, id, props: vec![], entries: vec![(b"a".to_vec(), 0)] } } else { self.our_publish(1, Some(id)) };
+                        self.send(p);
+                    }
+                    _ => {
+                        let p = self.our_publish(2, Some(id));
+                        self.send(p);
+                    }
+                }
+                return;
+            }
         }
         // fire an armed timer
         let armed: Vec<Timer> = self.model.armed.iter().copied().collect();
